@@ -157,6 +157,22 @@ def templates():
                                                      ("ty", "x", arr(INT), ("block", [I(2)])), ("ty", "x", arr(multi(INT, STR)), ("block", [I(3)])),
                                                      ("other", ("block", [I(4)]))])),
                     ("tuple", [V("r1"), V("r2"), ("pre", "deref", V("log"))])])
+    # VALUE arms compare by `==`, which for arrays ignores the stored element tag: a candidate equal to the scrutinee
+    # selects its arm whatever the provenance (and tag) of either array - alone, after a non-matching candidate, and
+    # nested in a tuple
+    empties = ["empty-literal", "repeat0-int", "repeat0-str", "slice-empty", "collect-empty"]
+    ones = {"lit": ("array", [I(1)]), "slice": ("slice", ("array", [I(1), ("s", "a")]), I(0), I(1), None),
+            "collect": ("post", "collect", ("post", "iter", ("array", [I(1)]))),
+            "partition-left": ("tacc", ("bin", "partition", ("post", "iter", ("array", [I(1), ("f", 2.5)])), ("fn", [("e", multi(INT, FLOAT))], BOOL, [("return", ("bin", "eq", V("e"), I(1)))])), 0),
+            "repeat": ("repeat", I(1), I(1))}
+    pairs = [(mk_arrays[a], mk_arrays[b]) for a in empties for b in empties] + [(ones[a], ones[b]) for a in ones for b in ones]
+    for sc, cand in pairs:
+        ida = ("fndecl", "ida", [("v", arr(ANY))], arr(ANY), [("return", V("v"))])
+        out.append([LOG, ida, ("set", "a", ("call", V("ida"), [sc])),
+                    ("set", "r1", ("match", V("a"), [("val", [cand], ("block", [mark(1), I(1)])), ("other", ("block", [mark(2), I(2)]))])),
+                    ("set", "r2", ("match", V("a"), [("val", [("array", [I(9)]), cand], ("block", [mark(3), I(3)])), ("other", ("block", [mark(4), I(4)]))])),
+                    ("set", "r3", ("match", ("tuple", [I(7), V("a")]), [("val", [("tuple", [I(7), cand])], ("block", [I(5)])), ("other", ("block", [I(6)]))])),
+                    ("tuple", [V("r1"), V("r2"), V("r3"), ("pre", "deref", V("log"))])])
     # if-set / while-set / type arms with struct patterns: width and depth subtyping between the pattern
     # and the static type of the scrutinee (wider, narrower, union with non-structs, any)
     def st(*fs):
